@@ -96,7 +96,9 @@ pub fn random_env(rng: &mut StdRng) -> Value {
             algo_o = batch(rng, true, 2);
         }
     }
-    let refuse: Vec<&str> = USER_CIDS.iter().filter(|_| rng.random_range(0..6) == 0).cloned().collect();
+    // the risk manager's refusals may also name the close-positions id: commands bypass the risk manager, so a
+    // refusal of "x" must not keep a close-positions (or any other) command from acting
+    let refuse: Vec<&str> = USER_CIDS.iter().chain([CLOSE_CID].iter()).filter(|_| rng.random_range(0..6) == 0).cloned().collect();
     json!({"link": link, "algoC": algo_c, "algoO": algo_o, "refuse": refuse})
 }
 
